@@ -163,7 +163,7 @@ def cbmc_cmd(ctx, q, prep):
     for k, v in defs.items(): cmd += ['-D', '%s=%s' % (k, v)]
     cmd += ['--function', 'vp_harness_main', '--unwind', str(q.unwind), '--unwinding-assertions',
             '--no-malloc-may-fail', '--drop-unused-functions', '--no-pointer-primitive-check',
-            '--trace', '--json-ui', '--verbosity', '6']
+            '--trace', '--json-ui', '--verbosity', '8']
     if q.unwindset and not (q.loops or q.hunwind):
         cmd += ['--unwindset', ','.join('%s:%d' % kv for kv in q.unwindset.items())]
     if q.object_bits: cmd += ['--object-bits', str(q.object_bits)]
@@ -259,6 +259,9 @@ def run_query(ctx, q, tier):
         res.update(verdict='error', reason='missing environment model: ' + '; '.join(sorted({p['desc'] for p in nobody}))[:600]); return res
     if not wit:
         res.update(verdict='error', reason='harness has no reachability witness'); return res
+    if len(wit_ok) < len(wit) and unwinding:
+        # a failed unwinding assertion cuts every path behind it: the stated loop bound is too small for this harness
+        res.update(verdict='error', reason='unwinding bound too small (a loop needs more iterations than stated): ' + '; '.join(sorted({'%s in %s [%s]' % (p['desc'], p['function'], p['id']) for p in unwinding}))[:500]); return res
     if len(wit_ok) < len(wit):
         res.update(verdict='vacuous', reason='witness not reachable: ' + '; '.join(p['desc'] for p in wit if p['status'] != 'FAILURE')); return res
     if real_fail:
